@@ -7,6 +7,7 @@ CONSTANTS
   Literal = FALSE
   FixDel = FALSE
   CreateNils = TRUE
+  AtomicNewRef = TRUE
 SPECIFICATION Spec
 INVARIANTS MutualExclusion NoUseAfterRelease NoDeadlock NoLockLeft ReturnedHoldNothing Linearizable
 PROPERTIES EveryOpReturns
